@@ -188,10 +188,10 @@ class StrLattice(Monitor):
 def setup(concepts, spec):
     cap = CAP[spec['tier']]
     attach.attach_ctor(concepts)
-    attach.attach(concepts.lattice_members.FormattingMixin, '__str__', StrConcept())
-    attach.attach(concepts.lattices.FormattingMixin, '__str__', StrLattice())
-    for owner, name, mon in [(concepts.lattices.Data, '__init__', InitHook(cap)),
-                             (concepts.lattices.Data, '_fromlist', FromlistHook(cap))]:
+    attach.attach(concepts.lattice_members.Concept, '__str__', StrConcept())
+    attach.attach(concepts.lattices.Lattice, '__str__', StrLattice())
+    for owner, name, mon in [(concepts.lattices.Lattice, '__init__', InitHook(cap)),
+                             (concepts.lattices.Lattice, '_fromlist', FromlistHook(cap))]:
         try:
             attach.attach(owner, name, mon)
         except (KeyError, core.HarnessError):
